@@ -31,6 +31,7 @@ class FuncInfo:
     node: ast.FunctionDef
     cls: "ClassInfo | None" = None
     decorators: list = dataclasses.field(default_factory=list)  # resolved names (str) or None
+    bound: "ClassInfo | None" = None  # the concrete class an inherited method is analysed for (class attributes resolve there)
 
     @property
     def loc(self) -> str:
